@@ -101,7 +101,7 @@ def parseLine (ws : List String) : Request × Cfg :=
 
 def showStage : Stage → String
   | .validate => "validate" | .graph => "graph" | .details => "details"
-  | .checks => "checks" | .plan => "plan" | .done => "done"
+  | .checks => "checks" | .plan => "plan" | .upto => "upto" | .done => "done"
 
 def sortStrs (l : List String) : List String := l.mergeSort (fun a b => decide (a ≤ b))
 
@@ -125,6 +125,25 @@ def step (line : String) : String :=
     let (req, cfg) := parseLine rest
     match pipelineStaged req cfg with
     | (_, .ok s) => showSummary s
+    | (st, .error) => s!"error@{showStage st}"
+    | (st, .panic) => s!"panic@{showStage st}"
+    | (st, .hang) => s!"hang@{showStage st}"
+  | "T2" :: rest =>
+    -- T2 bt= fs= seg= segnum= stage= stopnum= mc= ss= mbs= out= bins= M=
+    let kv := rest.map fun w => match w.splitOn "=" with
+      | k :: r => (k, "=".intercalate r)
+      | [] => ("", "")
+    let f := field kv
+    let (req, _) := parseLine rest
+    let r : T2Request :=
+      { modules := req.modules, outputModule := req.outputModule, blockType := decStr (f "bt"), stage := nat! (f "stage")
+        segmentSize := nat! (f "seg"), segmentNumber := nat! (f "segnum"), firstStreamable := nat! (f "fs")
+        stopBlockNum := nat! (f "stopnum"), meteringConfig := f "mc" == "1", stateStore := f "ss" == "1"
+        mergedBlocksStore := f "mbs" == "1" }
+    match pipelineTier2Staged r with
+    | (_, .ok s) =>
+      let stages := ";".intercalate (s.graph.stages.map fun st => ",".intercalate (st.map showNames))
+      s!"ok used={showNames s.graph.used} stages={stages} upto={showNames s.upTo}"
     | (st, .error) => s!"error@{showStage st}"
     | (st, .panic) => s!"panic@{showStage st}"
     | (st, .hang) => s!"hang@{showStage st}"
